@@ -1344,6 +1344,16 @@ def run_sched_family(ctx, uftrace, version, date, report, stats, only=None):
     stats["sched_events_pre_empted"] += sum(1 for t in traces for x in t.sched if x[3])
 
 
+def sessfork_module():
+    """harness/c15_sessfork.py: exec chains (several sessions per task) and forks made by secondary threads"""
+    import importlib.util
+    import sys
+    spec = importlib.util.spec_from_file_location("c15_sessfork", os.path.join(C.VERIF, "harness", "c15_sessfork.py"))
+    m = importlib.util.module_from_spec(spec)
+    spec.loader.exec_module(m)
+    return m, sys.modules[__name__]
+
+
 def run(ctx):
     ok, problems = C.prove(ctx, "C15")
     if not ok:
@@ -1877,6 +1887,8 @@ def run_cases(ctx, only):
 
     if only is None:
         run_sched_family(ctx, uftrace, version, date, report, stats)
+        SF, K = sessfork_module()
+        SF.run_family(K, ctx, uftrace, report, stats)
     if only is not None:
         for k in ctx.known_printed:
             print(k)
@@ -1884,7 +1896,7 @@ def run_cases(ctx, only):
             print("VIOLATION property=C15 %s" % path)
         return 1 if ctx.violations else 0
     ctx.coverage.update({
-        "evaluations": stats["runs"] + stats["sched_runs"] + stats["h4"] + stats["json_probe"] + stats["body_probe"] + stats["tsval"],
+        "evaluations": stats["runs"] + stats["sched_runs"] + stats["sessfork_runs"] + stats["h4"] + stats["json_probe"] + stats["body_probe"] + stats["tsval"],
         "distinct_nontrivial": len(distinct) + 256 + 255,
         "rule": "H4: print_json_escaped_char and json_quote on each of the 256 (255) byte values, on the string of all of them, and on "
                 "random strings, model vs code, exhaustive in the byte; the Lean JSON recogniser against Python's strict json on seeded "
@@ -1909,6 +1921,14 @@ def run_cases(ctx, only):
                               "pre_empted": stats["sched_events_pre_empted"], "tool_runs": stats["sched_runs"],
                               "runs_matching_fixed_model": stats["sched_match_fixed_model"],
                               "runs_matching_model_as_it_is_only": stats["sched_match_model_as_it_is"]},
+        "sessions_and_thread_forks": {
+            "what": "directories in which a task has 2-3 sessions over time (exec chain: own executable, map and symbol table per "
+                    "session, the same addresses named differently) and processes whose secondary thread (tid != pid) forks; "
+                    "`uftrace graph` per session and dump --flame-graph/--graphviz/--mermaid against an independent per-session "
+                    "aggregation (harness/c15_sessfork.py; monitor only, not in the Lean model)",
+            "directories": stats["sessfork_dirs"], "exec_chains": stats["sessfork_dirs_exec_chain"],
+            "thread_fork_processes": stats["sessfork_dirs_thread_fork"], "sessions": stats["sessfork_sessions"],
+            "forks_by_secondary_threads": stats["sessfork_forks_by_secondary_thread"], "tool_runs": stats["sessfork_runs"]},
         "numeric_range": {"ts_text_values_read_back": stats["tsval"],
                           "chrome_runs_with_first_time_ge_2^53": stats["chrome_runs_first_time_ge_2^53"],
                           "chrome_events_with_time_ge_2^53": stats["chrome_events_time_ge_2^53"],
@@ -1956,6 +1976,21 @@ def run_cases(ctx, only):
 
 def replay(ctx, path):
     r = json.load(open(path))
+    if "sessfork" in r:
+        print(json.dumps({k: r.get(k) for k in ("kind", "what", "mode", "theorem")}, indent=1))
+        ctx.snapshot()
+        uftrace, version, h4, err = build_impl(ctx)
+        if err:
+            print("build failed: " + err)
+            return 2
+        SF, K = sessfork_module()
+        seen = []
+        SF.run_family(K, ctx, uftrace, lambda name, obj, nfi=False, finding=None: seen.append((name, obj.get("what"))), Counter(),
+                      only=SF.MDir.from_json(r["sessfork"]))
+        for name, what in seen:
+            print("VIOLATION property=C15 (replay) %s: %s" % (name, what))
+        print("replayed on %s: %s" % (C.REPO, "reproduced (%d violation(s))" % len(seen) if seen else "not reproduced"))
+        return 1 if seen else 0
     if "trace" not in r:
         print(json.dumps(r, indent=1)[:4000])
         return 0
